@@ -186,16 +186,7 @@ func (s *SetMetadataLogPayload) UnmarshalJSON(data []byte) error {
 	if err != nil {
 		return err
 	}
-	var id interface{}
-	switch strings.ToUpper(x.TargetType) {
-	case strings.ToUpper(MetaTargetTypeAccount):
-		id = ""
-		err = json.Unmarshal(x.TargetID, &id)
-	case strings.ToUpper(MetaTargetTypeTransaction):
-		id, err = strconv.ParseUint(string(x.TargetID), 10, 64)
-	default:
-		panic("unknown type")
-	}
+	id, err := unmarshalTargetID(x.TargetType, x.TargetID)
 	if err != nil {
 		return err
 	}
@@ -206,6 +197,27 @@ func (s *SetMetadataLogPayload) UnmarshalJSON(data []byte) error {
 		Metadata:   x.Metadata,
 	}
 	return nil
+}
+
+// unmarshalTargetID decodes the target id of a metadata log payload according to its target type.
+func unmarshalTargetID(targetType string, data json.RawMessage) (any, error) {
+	var (
+		id  interface{}
+		err error
+	)
+	switch strings.ToUpper(targetType) {
+	case strings.ToUpper(MetaTargetTypeAccount):
+		id = ""
+		err = json.Unmarshal(data, &id)
+	case strings.ToUpper(MetaTargetTypeTransaction):
+		id, err = strconv.ParseUint(string(data), 10, 64)
+	default:
+		panic("unknown type")
+	}
+	if err != nil {
+		return nil, err
+	}
+	return id, nil
 }
 
 func NewSetMetadataLog(at Time, metadata SetMetadataLogPayload) *Log {
@@ -222,6 +234,30 @@ type DeleteMetadataLogPayload struct {
 	TargetType string `json:"targetType"`
 	TargetID   any    `json:"targetId"`
 	Key        string `json:"key"`
+}
+
+func (s *DeleteMetadataLogPayload) UnmarshalJSON(data []byte) error {
+	type X struct {
+		TargetType string          `json:"targetType"`
+		TargetID   json.RawMessage `json:"targetId"`
+		Key        string          `json:"key"`
+	}
+	x := X{}
+	err := json.Unmarshal(data, &x)
+	if err != nil {
+		return err
+	}
+	id, err := unmarshalTargetID(x.TargetType, x.TargetID)
+	if err != nil {
+		return err
+	}
+
+	*s = DeleteMetadataLogPayload{
+		TargetType: x.TargetType,
+		TargetID:   id,
+		Key:        x.Key,
+	}
+	return nil
 }
 
 func NewDeleteMetadataLog(at Time, payload DeleteMetadataLogPayload) *Log {
@@ -283,6 +319,8 @@ func HydrateLog(_type LogType, data []byte) (any, error) {
 		payload = &SetMetadataLogPayload{}
 	case RevertedTransactionLogType:
 		payload = &RevertedTransactionLogPayload{}
+	case DeleteMetadataLogType:
+		payload = &DeleteMetadataLogPayload{}
 	default:
 		panic("unknown type " + _type.String())
 	}
